@@ -66,7 +66,7 @@ class ClockTime(_HHMMSSTimeExpression):
   TIME_CODE_PATTERN = ':'.join(['(?P<h>[0-9]{2,})',
                                 '(?P<m>[0-9]{2})',
                                 '(?P<s>[0-9]{2})']) + \
-                      '(.|,)' + '(?P<ms>[0-9]{2,3})'
+                      '(\\.|,)' + '(?P<ms>[0-9]{2,3})'
 
   def __init__(self, hours: int, minutes: int, seconds: int, milliseconds: int):
     super().__init__(hours, minutes, seconds)
@@ -85,7 +85,7 @@ class ClockTime(_HHMMSSTimeExpression):
   def parse(time_code: str) -> ClockTime:
     """Reads the time code string and converts to a ClockTime instance"""
     tc_regex = re.compile(ClockTime.TIME_CODE_PATTERN)
-    match = tc_regex.match(time_code)
+    match = tc_regex.fullmatch(time_code)
 
     if match is not None:
       return ClockTime(int(match.group('h')),
@@ -146,7 +146,7 @@ class SmpteTimeCode(_HHMMSSTimeExpression):
                                           '(?P<ndf_s>[0-9]{2})',
                                           '(?P<ndf_f>[0-9]{2})'])
 
-  SMPTE_TIME_CODE_DF_PATTERN = '(:|;|.|,)'.join(['(?P<df_h>[0-9]{2})',
+  SMPTE_TIME_CODE_DF_PATTERN = '(:|;|\\.|,)'.join(['(?P<df_h>[0-9]{2})',
                                                  '(?P<df_m>[0-9]{2})',
                                                  '(?P<df_s>[0-9]{2})',
                                                  '(?P<df_f>[0-9]{2})'])
@@ -212,7 +212,7 @@ class SmpteTimeCode(_HHMMSSTimeExpression):
   def parse(time_code: str, base_frame_rate: Fraction) -> SmpteTimeCode:
     """Reads the time code string and converts to a SmpteTimeCode instance"""
     non_drop_frame_tc_regex = re.compile(SmpteTimeCode.SMPTE_TIME_CODE_NDF_PATTERN)
-    match = non_drop_frame_tc_regex.match(time_code)
+    match = non_drop_frame_tc_regex.fullmatch(time_code)
 
     if match is not None:
       return SmpteTimeCode(int(match.group('ndf_h')),
@@ -225,7 +225,7 @@ class SmpteTimeCode(_HHMMSSTimeExpression):
       base_frame_rate = base_frame_rate * Fraction(1000, 1001)
 
     drop_frame_tc_regex = re.compile(SmpteTimeCode.SMPTE_TIME_CODE_DF_PATTERN)
-    match = drop_frame_tc_regex.match(time_code)
+    match = drop_frame_tc_regex.fullmatch(time_code)
 
     if match is not None:
       return SmpteTimeCode(int(match.group('df_h')),
